@@ -1,4 +1,240 @@
-import NriModel.Basic
-/-! Property theorems for C20 — placeholder until the model is written. -/
+import NriModel.Lemmas.Plugins
+import NriModel.Lemmas.PluginsNormalise
+/-!
+Property C20 — *sample injector plugins apply exactly what the matching annotation says*.
+
+Theorems about `Nri.Plugins` (model of plugins/device-injector and plugins/ulimit-adjuster
+launched as `10-device-injector` and `20-ulimit-adjuster` under a real `Adaptation`), for
+EVERY annotation set, container name and YAML layer `Y` (the decoder is a parameter).
+Only property theorems and the examples showing their hypotheses are satisfiable live here.
+-/
 namespace Nri.Props.C20
+open Nri Nri.Plugins
+
+/-! ### which annotation is used -/
+
+/-- **Precedence (injector).** Of the three keys `key/container.<ctr>`, `key/pod`, `key` the
+    most specific one that is present is used — also when its value is empty. -/
+theorem C20_precedence (ann : Annotations) (main ctr : Str) :
+    (∀ v, AList.lookup ann (containerKey main ctr) = some v → getAnnotation ann main ctr = some v) ∧
+    (AList.lookup ann (containerKey main ctr) = none →
+      ∀ v, AList.lookup ann (podKey main) = some v → getAnnotation ann main ctr = some v) ∧
+    (AList.lookup ann (containerKey main ctr) = none → AList.lookup ann (podKey main) = none →
+      getAnnotation ann main ctr = AList.lookup ann main) := by
+  refine ⟨?_, ?_, ?_⟩
+  · intro v h; simp [getAnnotation, firstPresent, h]
+  · intro h v h2; simp [getAnnotation, firstPresent, h, h2]
+  · intro h h2
+    simp only [getAnnotation, firstPresent, h, h2]
+    cases AList.lookup ann main <;> rfl
+
+example : getAnnotation
+    [("devices.nri.io".toList, "bare".toList), ("devices.nri.io/pod".toList, "pod".toList),
+     ("devices.nri.io/container.c1".toList, "mine".toList)] deviceKey "c1".toList
+    = some "mine".toList := by decide
+
+/-- **Scope (adjuster).** The adjuster reads the container-scoped key only: pod-scoped and
+    bare `ulimits.nri.containerd.io` annotations (and everything else) are never used. -/
+theorem C20_adjuster_scope (Y : Yaml) (ann ann' : Annotations) (ctr : Str)
+    (h : AList.lookup ann (containerKey ulimitKey ctr) = AList.lookup ann' (containerKey ulimitKey ctr)) :
+    adjuster Y ann ctr = adjuster Y ann' ctr := by
+  unfold adjuster parseUlimits
+  rw [h]
+
+/-- **Frame.** The outcome of a creation request depends on the pod annotations only through
+    the ten keys that name this container, the pod or the bare key. -/
+theorem C20_frame (Y : Yaml) (ann ann' : Annotations) (ctr : Str)
+    (h : ∀ k ∈ relevantKeys ctr, AList.lookup ann k = AList.lookup ann' k) :
+    create Y ann ctr = create Y ann' ctr := by
+  have hk : ∀ k, k ∈ relevantKeys ctr → AList.lookup ann k = AList.lookup ann' k := h
+  rw [create_eq_core, create_eq_core]
+  rw [injectorAnnotation_congr (ann := ann) (ann' := ann') (main := deviceKey) (ctr := ctr)
+        (hk _ (by simp [relevantKeys])) (hk _ (by simp [relevantKeys])) (hk _ (by simp [relevantKeys])),
+      injectorAnnotation_congr (ann := ann) (ann' := ann') (main := cdiDeviceKey) (ctr := ctr)
+        (hk _ (by simp [relevantKeys])) (hk _ (by simp [relevantKeys])) (hk _ (by simp [relevantKeys])),
+      injectorAnnotation_congr (ann := ann) (ann' := ann') (main := mountKey) (ctr := ctr)
+        (hk _ (by simp [relevantKeys])) (hk _ (by simp [relevantKeys])) (hk _ (by simp [relevantKeys]))]
+  unfold Spec.adjusterAnnotation
+  rw [hk _ (by simp [relevantKeys])]
+
+/-- **Never another container's annotation.** Adding, changing or deleting an annotation
+    addressed to a different container `c'` — of any of the four families, with any value,
+    and in particular when `c'` is a prefix or an extension of `ctr` — changes nothing:
+    keys are compared for EQUALITY. -/
+theorem C20_other_container (Y : Yaml) (ann : Annotations) (ctr c' m v : Str)
+    (hm : m ∈ mainKeys) (hne : c' ≠ ctr) :
+    create Y (AList.insert ann (containerKey m c') v) ctr = create Y ann ctr ∧
+    create Y (AList.erase ann (containerKey m c')) ctr = create Y ann ctr := by
+  have hirr := other_container_irrelevant (m := m) (c := ctr) (c' := c') hm hne
+  constructor
+  · apply C20_frame
+    intro k hk
+    exact AList.lookup_insert_other ann _ k v (fun h => hirr (h ▸ hk))
+  · apply C20_frame
+    intro k hk
+    exact AList.lookup_erase_other ann _ k (fun h => hirr (h ▸ hk))
+
+-- `c1` is a proper prefix of `c12`: the annotation for `c12` is not used for `c1`
+example : containerKey deviceKey "c12".toList ∉ relevantKeys "c1".toList :=
+  other_container_irrelevant (by simp [mainKeys]) (by decide)
+
+/-! ### what is applied -/
+
+/-- **Exact conversion.** If the most specific annotations decode to `ds`, `cs`, `ms`, `us`
+    (absent ⇒ empty), every rlimit name is accepted and every hard ≥ soft, then the request
+    succeeds with exactly: the devices in order (zero mode/uid/gid unset), the CDI names in
+    order, the mounts in order, the rlimits in order under their normalised names.
+    Guard `Plain`: the described adjustment names no key twice and nothing carries the
+    removal marker (otherwise the runtime's collector decides, DESIGN §6 #9/#17). -/
+theorem C20_exact (Y : Yaml) (ann : Annotations) (ctr : Str)
+    (ds : List Device) (cs : List Str) (ms : List Mount) (us : List Ulimit)
+    (hd : Spec.described Y.devices (Spec.injectorAnnotation ann deviceKey ctr) = some ds)
+    (hc : Spec.described Y.cdi (Spec.injectorAnnotation ann cdiDeviceKey ctr) = some cs)
+    (hm : Spec.described Y.mounts (Spec.injectorAnnotation ann mountKey ctr) = some ms)
+    (hu : Spec.described Y.ulimits (Spec.adjusterAnnotation ann ctr) = some us)
+    (hok : ∀ u ∈ us, (normalise u.type).isSome ∧ u.soft ≤ u.hard)
+    (a : Adjust)
+    (ha : a = { devices := ds.map Device.toNRI, cdi := cs, mounts := ms,
+                rlimits := us.map fun u =>
+                  { type := rlimitPrefix ++ trimPrefix rlimitPrefix (toUpper u.type),
+                    hard := u.hard, soft := u.soft } })
+    (hp : Plain a = true) :
+    create Y ann ctr = .ok a := by
+  rw [create_eq_core]
+  apply createCore_of_expected _ hp
+  unfold expectedCore
+  simp only [hd, hc, hm, hu, rlimitsOf_of_all hok, ha]
+
+/-- the conversion of one device: the four plain fields are copied, the three optional ones
+    are set iff non-zero -/
+theorem C20_exact_device (d : Device) :
+    d.toNRI.path = d.path ∧ d.toNRI.type = d.type ∧ d.toNRI.major = d.major ∧ d.toNRI.minor = d.minor ∧
+    (d.toNRI.fileMode = if d.fileMode = 0 then none else some d.fileMode) ∧
+    (d.toNRI.uid = if d.uid = 0 then none else some d.uid) ∧
+    (d.toNRI.gid = if d.gid = 0 then none else some d.gid) := by
+  refine ⟨rfl, rfl, rfl, rfl, ?_, ?_, ?_⟩ <;> simp only [Device.toNRI] <;> split <;> simp_all
+
+/-- **Specification refinement.** Whenever the declarative specification `Spec.expected`
+    describes a plain adjustment the request returns exactly it; a request that succeeds
+    returns what the specification describes (entries carrying the removal marker aside). -/
+theorem C20_refines (Y : Yaml) (ann : Annotations) (ctr : Str) :
+    (∀ a, Spec.expected Y ann ctr = some a → Plain a = true → create Y ann ctr = .ok a) ∧
+    (∀ r, create Y ann ctr = .ok r → ∃ a, Spec.expected Y ann ctr = some a ∧
+        r.cdi = a.cdi ∧ r.rlimits = a.rlimits ∧
+        r.mounts = a.mounts.filter (fun m => !marked m.destination) ∧
+        r.devices = a.devices.filter (fun d => !marked d.path)) := by
+  constructor
+  · intro a h hp
+    rw [create_eq_core]; rw [expected_eq_core] at h
+    exact createCore_of_expected h hp
+  · intro r h
+    rw [create_eq_core] at h; rw [expected_eq_core]
+    exact createCore_ok h
+
+/-! ### all or nothing -/
+
+/-- **All or nothing.** A malformed payload in any of the four selected annotations, an
+    unknown rlimit type anywhere in the list, or a hard limit below the soft limit anywhere
+    in the list fails the request; a failed request carries no adjustment at all (the result
+    is `Except.error`). No guard. -/
+theorem C20_all_or_nothing (Y : Yaml) (ann : Annotations) (ctr : Str)
+    (h : Spec.described Y.devices (Spec.injectorAnnotation ann deviceKey ctr) = none ∨
+         Spec.described Y.cdi (Spec.injectorAnnotation ann cdiDeviceKey ctr) = none ∨
+         Spec.described Y.mounts (Spec.injectorAnnotation ann mountKey ctr) = none ∨
+         Spec.described Y.ulimits (Spec.adjusterAnnotation ann ctr) = none ∨
+         ∃ us, Spec.described Y.ulimits (Spec.adjusterAnnotation ann ctr) = some us ∧
+           ∃ u ∈ us, normalise u.type = none ∨ u.hard < u.soft) :
+    ∃ e, create Y ann ctr = .error e := by
+  rw [create_eq_core]
+  apply createCore_error_of_expected_none
+  unfold expectedCore
+  rcases h with h | h | h | h | ⟨us, hu, u, hin, hbad⟩
+  · simp [h]
+  · rw [h]; cases Spec.described Y.devices (Spec.injectorAnnotation ann deviceKey ctr) <;> rfl
+  · rw [h]
+    cases Spec.described Y.devices (Spec.injectorAnnotation ann deviceKey ctr) <;>
+    cases Spec.described Y.cdi (Spec.injectorAnnotation ann cdiDeviceKey ctr) <;> rfl
+  · rw [h]
+    cases Spec.described Y.devices (Spec.injectorAnnotation ann deviceKey ctr) <;>
+    cases Spec.described Y.cdi (Spec.injectorAnnotation ann cdiDeviceKey ctr) <;>
+    cases Spec.described Y.mounts (Spec.injectorAnnotation ann mountKey ctr) <;> rfl
+  · rw [hu]
+    have hn := rlimitsOf_none_of_bad hin hbad
+    cases Spec.described Y.devices (Spec.injectorAnnotation ann deviceKey ctr) <;>
+    cases Spec.described Y.cdi (Spec.injectorAnnotation ann cdiDeviceKey ctr) <;>
+    cases Spec.described Y.mounts (Spec.injectorAnnotation ann mountKey ctr) <;> simp [hn]
+
+/-- … and conversely a request that succeeds had four well-formed payloads, only accepted
+    rlimit names and hard ≥ soft everywhere. -/
+theorem C20_ok_only_if (Y : Yaml) (ann : Annotations) (ctr : Str) (r : Adjust)
+    (h : create Y ann ctr = .ok r) :
+    ∃ ds cs ms us rs,
+      Spec.described Y.devices (Spec.injectorAnnotation ann deviceKey ctr) = some ds ∧
+      Spec.described Y.cdi (Spec.injectorAnnotation ann cdiDeviceKey ctr) = some cs ∧
+      Spec.described Y.mounts (Spec.injectorAnnotation ann mountKey ctr) = some ms ∧
+      Spec.described Y.ulimits (Spec.adjusterAnnotation ann ctr) = some us ∧
+      Spec.rlimitsOf us = some rs ∧ r.rlimits = rs ∧ r.cdi = cs := by
+  rw [create_eq_core] at h
+  obtain ⟨a, ha, hcdi, hrl, _, _⟩ := createCore_ok h
+  unfold expectedCore at ha
+  cases h1 : Spec.described Y.devices (Spec.injectorAnnotation ann deviceKey ctr) with
+  | none => simp [h1] at ha
+  | some ds =>
+    cases h2 : Spec.described Y.cdi (Spec.injectorAnnotation ann cdiDeviceKey ctr) with
+    | none => simp [h1, h2] at ha
+    | some cs =>
+      cases h3 : Spec.described Y.mounts (Spec.injectorAnnotation ann mountKey ctr) with
+      | none => simp [h1, h2, h3] at ha
+      | some ms =>
+        cases h4 : Spec.described Y.ulimits (Spec.adjusterAnnotation ann ctr) with
+        | none => simp [h1, h2, h3, h4] at ha
+        | some us =>
+          simp only [h1, h2, h3, h4] at ha
+          cases h5 : Spec.rlimitsOf us with
+          | none => simp [h5] at ha
+          | some rs =>
+            simp only [h5] at ha
+            have := Option.some.inj ha
+            subst this
+            exact ⟨ds, cs, ms, us, rs, rfl, rfl, rfl, rfl, h5, hrl, hcdi⟩
+
+-- a YAML layer that rejects everything: any present device annotation fails the request
+example : ∃ e, create ⟨fun _ => none, fun _ => none, fun _ => none, fun _ => none⟩
+    [("devices.nri.io/pod".toList, "x".toList)] "c".toList = .error e :=
+  C20_all_or_nothing _ _ _ (Or.inl (by decide))
+
+/-! ### rlimit names -/
+
+/-- **Normalisation** is idempotent, insensitive to case, and the `RLIMIT_` prefix (in any
+    case) is optional; what is accepted is exactly the sixteen names, bare or prefixed. -/
+theorem C20_normalise :
+    (∀ t n, normalise t = some n → normalise n = some n) ∧
+    (∀ t t', toUpper t = toUpper t' → normalise t = normalise t') ∧
+    (∀ t, normalise (toUpper t) = normalise t) ∧
+    (∀ t p v, v ∈ validNames → toUpper t = v → toUpper p = rlimitPrefix →
+        normalise t = some (rlimitPrefix ++ v) ∧ normalise (p ++ t) = some (rlimitPrefix ++ v)) ∧
+    (∀ t n, normalise t = some n ↔
+        ∃ v ∈ validNames, n = rlimitPrefix ++ v ∧ (toUpper t = v ∨ toUpper t = rlimitPrefix ++ v)) := by
+  refine ⟨?_, ?_, ?_, ?_, normalise_some_iff⟩
+  · intro t n h
+    obtain ⟨v, hv, rfl, _⟩ := (normalise_some_iff t n).mp h
+    refine (normalise_some_iff _ _).mpr ⟨v, hv, rfl, Or.inr ?_⟩
+    rw [toUpper_append, rlimitPrefix_upper, valid_upper v hv]
+  · intro t t' h
+    unfold normalise
+    rw [h]
+  · intro t
+    unfold normalise
+    rw [toUpper_idem]
+  · intro t p v hv ht hp
+    constructor
+    · exact (normalise_some_iff _ _).mpr ⟨v, hv, rfl, Or.inl ht⟩
+    · refine (normalise_some_iff _ _).mpr ⟨v, hv, rfl, Or.inr ?_⟩
+      rw [toUpper_append, hp, ht]
+
+example : normalise "nOfIlE".toList = some "RLIMIT_NOFILE".toList := by decide
+example : normalise "rlimit_Core".toList = some "RLIMIT_CORE".toList := by decide
+example : normalise "RLIMIT_RLIMIT_CPU".toList = none := by decide
+example : normalise "FOO".toList = none := by decide
+
 end Nri.Props.C20
